@@ -9,12 +9,18 @@ package coresim
 //   c18_init                                   install the call observer, forget gates, emit Fid
 //   c18_fid                                    emit Fid{stored, present, frameworks}: runtime KV o2/runtime/aliecs/mesos_fid
 //                                              and the framework ids with an open event stream at the master
-//   c18_arm      {point, n}                    hold the n-th (default 1st) arrival at point
-//   c18_waitgate {point, n, timeout_ms}        wait until n (default 1) arrivals are held at point
-//   c18_release  {point, kind: pass|drop}      let the held call through / refuse it (HTTP 503)
-//   c18_mark                                   remember how many RECONCILE calls the master has seen
+//   c18_arm      {point, n, kind: ""|chain}    hold the n-th (default 1st) arrival at point; chain: a release with
+//                                              op "more" lets that one go and holds the next arrival as well
+//   c18_waitgate {point, n, timeout_ms, op}    wait until n (default 1) arrivals are held at point (op "seen": until
+//                                              the n-th arrival since the arming is the one held)
+//   c18_release  {point, kind: pass|drop|swallow}  let the held call through / refuse it (HTTP 503) / answer 202 and
+//                                              forget it (accepted and lost)
+//   c18_mark                                   remember how many RECONCILE and ACKNOWLEDGE calls the master has seen
+//   c18_waitacks {n, timeout_ms}               wait for n ACKNOWLEDGE calls after the last mark
+//   c18_poke                                   the master repeats the latest status of the task whose KILL is held
 //   c18_waitreconcile {timeout_ms}             wait for a RECONCILE call after the last mark / wait
 //   c18_waitdead {timeout_ms}                  wait until the master has no non-terminal task
+//   c18_ungate_keep {point}                    a gated hook point lets later arrivals pass, who is parked there stays
 //   c18_delfid                                 delete the stored framework id (fresh installation)
 //
 // Points: "RECONCILE", "ACCEPT" (an ACCEPT call launching at least one task), "MESSAGE:CONFIGURE",
@@ -36,12 +42,17 @@ import (
 
 const c18FidKey = "o2/runtime/aliecs/mesos_fid"
 
+type c18Hold struct {
+	release chan struct{} // closed on release
+	verdict string        // pass | drop | swallow
+}
+
 type c18Gate struct {
-	nth      int           // hold the nth arrival (calls) / every arrival (LAUNCH)
-	seen     int           // arrivals so far
-	held     int           // arrivals currently held
-	release  chan struct{} // closed on release
-	verdict  string        // pass | drop
+	nth      int  // hold the nth arrival (calls) / every arrival (LAUNCH, MESSAGE)
+	chain    bool // after a release that asks for more, the next arrival is held as well
+	seen     int  // arrivals so far
+	held     int  // arrivals currently held
+	cur      *c18Hold
 	released bool
 }
 
@@ -50,6 +61,9 @@ type c18State struct {
 	gates      map[string]*c18Gate
 	reconciles int
 	mark       int
+	acks       int
+	ackMark    int
+	heldKill   string // task of the KILL call held last
 	installed  *Master
 }
 
@@ -104,21 +118,21 @@ func (s *c18State) arrive(r *Runner, point string, every bool, kv ...interface{}
 		return "pass"
 	}
 	g.seen++
-	if !every && g.seen != g.nth {
+	if !every && g.seen != g.nth && !(g.chain && g.seen > g.nth) {
 		s.mu.Unlock()
 		return "pass"
 	}
 	g.held++
-	ch := g.release
+	h := g.cur
 	s.mu.Unlock()
 	r.Emit("MGateReached", append([]interface{}{"point", point}, kv...)...)
 	select {
-	case <-ch:
+	case <-h.release:
 	case <-time.After(25 * time.Second): // safety net: a forgotten gate must not wedge the batch
 	}
 	s.mu.Lock()
 	g.held--
-	v := g.verdict
+	v := h.verdict
 	s.mu.Unlock()
 	if v == "" {
 		v = "pass"
@@ -147,13 +161,31 @@ func (s *c18State) install(r *Runner) {
 			}
 			return 0
 		}
+		if call.Type == scheduler.Call_ACKNOWLEDGE {
+			s.mu.Lock()
+			s.acks++
+			s.mu.Unlock()
+			return 0
+		}
 		p := c18Point(call)
 		if p == "" {
 			return 0
 		}
-		// commands are sent with one MESSAGE call per target task: hold them all
-		if s.arrive(r, p, strings.HasPrefix(p, "MESSAGE:")) == "drop" {
+		kv := []interface{}{}
+		if p == "KILL" && call.Kill != nil {
+			kv = append(kv, "task", call.Kill.TaskID.Value)
+			s.mu.Lock()
+			s.heldKill = call.Kill.TaskID.Value
+			s.mu.Unlock()
+		}
+		// commands are sent with one MESSAGE call per target task: hold them all.
+		// "drop": the master refuses the call (HTTP 503) without looking at it - for the core the call is lost
+		// "swallow": the master answers 202 and forgets the call - nobody notices
+		switch s.arrive(r, p, strings.HasPrefix(p, "MESSAGE:"), kv...) {
+		case "drop":
 			return http.StatusServiceUnavailable
+		case "swallow":
+			return http.StatusAccepted
 		}
 		if strings.HasPrefix(p, "MESSAGE:") && c18TargetsDead(r.Master, call) {
 			// the simulated executors answer for any task the master has ever known: a command for tasks
@@ -224,9 +256,9 @@ func init() {
 			n = 1
 		}
 		c18.mu.Lock()
-		c18.gates[st.Point] = &c18Gate{nth: n, release: make(chan struct{})}
+		c18.gates[st.Point] = &c18Gate{nth: n, chain: st.Kind == "chain", cur: &c18Hold{release: make(chan struct{})}}
 		c18.mu.Unlock()
-		r.Emit("MGateArmed", "point", st.Point, "n", n)
+		r.Emit("MGateArmed", "point", st.Point, "n", n, "chain", st.Kind == "chain")
 	}
 	ExtraSteps["c18_waitgate"] = func(r *Runner, st *Step, ctx context.Context) {
 		n := st.N
@@ -238,7 +270,11 @@ func init() {
 		for {
 			c18.mu.Lock()
 			g := c18.gates[st.Point]
-			ok = g != nil && g.held >= n
+			if st.Op == "seen" { // the n-th arrival (counted from the arming) is the one held now
+				ok = g != nil && g.seen >= n && g.held >= 1
+			} else {
+				ok = g != nil && g.held >= n
+			}
 			c18.mu.Unlock()
 			if ok || time.Now().After(deadline) {
 				break
@@ -256,16 +292,47 @@ func init() {
 		g := c18.gates[st.Point]
 		ok := g != nil && !g.released
 		if ok {
-			g.verdict, g.released = v, true
-			close(g.release)
+			g.cur.verdict = v
+			close(g.cur.release)
+			if g.chain && st.Op == "more" {
+				g.cur = &c18Hold{release: make(chan struct{})} // the next arrival is held too
+			} else {
+				g.released = true
+			}
 		}
 		c18.mu.Unlock()
 		r.Emit("MGateReleased", "point", st.Point, "kind", v, "ok", ok)
 	}
 	ExtraSteps["c18_mark"] = func(r *Runner, st *Step, ctx context.Context) {
 		c18.mu.Lock()
-		c18.mark = c18.reconciles
+		c18.mark, c18.ackMark = c18.reconciles, c18.acks
 		c18.mu.Unlock()
+	}
+	// c18_poke: the master repeats the latest status of the task whose KILL call is held (Mesos re-sends unacknowledged
+	// updates): the core answers with an ACKNOWLEDGE call, issued after the held call
+	ExtraSteps["c18_poke"] = func(r *Runner, st *Step, ctx context.Context) {
+		c18.mu.Lock()
+		id := c18.heldKill
+		c18.mu.Unlock()
+		t := r.Master.Task(id)
+		r.Emit("Poke", "task", id, "ok", t != nil)
+		if t != nil {
+			r.Master.TaskStatus(id, t.Mesos, nil)
+		}
+	}
+	ExtraSteps["c18_waitacks"] = func(r *Runner, st *Step, ctx context.Context) {
+		deadline := time.Now().Add(c18Timeout(st, 10*time.Second))
+		n := 0
+		for {
+			c18.mu.Lock()
+			n = c18.acks - c18.ackMark
+			c18.mu.Unlock()
+			if n >= st.N || time.Now().After(deadline) {
+				break
+			}
+			time.Sleep(2 * time.Millisecond)
+		}
+		r.Emit("Acked", "count", n, "ok", n >= st.N)
 	}
 	ExtraSteps["c18_waitreconcile"] = func(r *Runner, st *Step, ctx context.Context) {
 		deadline := time.Now().Add(c18Timeout(st, 15*time.Second))
@@ -301,6 +368,12 @@ func init() {
 		}
 		sort.Strings(alive)
 		r.Emit("Quiesced", "alive", append([]string{}, alive...))
+	}
+	// c18_ungate_keep: later arrivals at a hook point pass, the goroutines parked there stay (the generic "release" lets
+	// the oldest go)
+	ExtraSteps["c18_ungate_keep"] = func(r *Runner, st *Step, ctx context.Context) {
+		r.Sched.Ungate(st.Point)
+		r.Emit("GateKept", "point", st.Point, "parked", r.Sched.NParked(st.Point))
 	}
 	ExtraSteps["c18_delfid"] = func(r *Runner, st *Step, ctx context.Context) {
 		req, _ := http.NewRequestWithContext(ctx, http.MethodDelete, "http://"+r.Consul.Addr()+"/v1/kv/"+c18FidKey, nil)
